@@ -58,7 +58,7 @@ def gen_spec(rng):
         variants.append({"style": style, "fields": fs})
     spec = {"kind": kind, "variants": variants, "traits": traits, "raw": raw, "gen": gen_kind,
             "entry": rng.choice(["attr", "derive"]), "type_attr": rng.choice(["", "", "#[repr(C)]", "#[non_exhaustive]"]),
-            "where": rng.random() < 0.3, "gdefault": rng.random() < 0.3, "unsized": False, "disc": rng.random() < 0.5}
+            "where": rng.random() < 0.3, "gdefault": rng.random() < 0.3, "unsized": False, "disc": rng.random() < 0.5, "vattr": rng.random() < 0.25}
     if kind == "enum":
         if "Default" in traits:
             units = [i for i, v in enumerate(variants) if v["style"] == "unit"]
@@ -170,6 +170,8 @@ def type_text(spec, which):
     disc = spec.get("disc") and all(v["style"] == "unit" for v in spec["variants"]) and not any(t in spec["traits"] for t in ("PartialOrd", "Ord"))
     for vi, b in enumerate(bodies):
         m = "#[default] " if spec.get("dv") == vi else ""
+        if spec.get("vattr") and vi % 2 == 1:
+            m = "#[non_exhaustive] " + m      # a foreign attribute on a variant must not change what is derived
         d = f" = {(len(bodies) - vi) * 3}" if disc else ""
         vs.append(f"{m}{vname(spec, vi)}{b}{d}")
     return head + f"pub enum {tn}{gd}{wh} {{ " + ", ".join(vs) + " }"
